@@ -131,6 +131,9 @@ func opPP(r *rand.Rand, n int, tier string) {
 				if k == nd-1 && r.Intn(2) == 0 {
 					j += "last line without eol"
 				}
+				if k == nd-1 && r.Intn(4) == 0 {
+					j = "exit status 2" // exactly one unterminated line after the last dump
+				}
 				// no indentation: an indented dump followed by unindented text ends with a scan error (observation O1)
 				v := g.variant()
 				v.Indent, v.BlankIndents = "", false
